@@ -136,7 +136,10 @@ struct JSON {
                     break;
                 }
 
+                // Malformed: nothing after this point can be trusted, fail the whole document.
                 value.Reset();
+                offset = length;
+                return value;
             }
 
             ++offset;
@@ -179,7 +182,10 @@ struct JSON {
                     break;
                 }
 
+                // Malformed: nothing after this point can be trusted, fail the whole document.
                 value.Reset();
+                offset = length;
+                return value;
             }
 
             ++offset;
